@@ -255,3 +255,4 @@ def run(rep, programs):
     # the per-row search itself: a free aligned block in a row is found (exact zero tests, all aligned positions)
     from props import c23
     c23.run(rep, programs)
+    c01.r_huge_coord(rep, prog)       # counter and bits that are changed together belong to the same huge frame
